@@ -225,7 +225,12 @@ type Search struct {
 	// TrackFields also tracks selector conditions such as o.KeepX / x.f == c; they are
 	// invalidated by an assignment to the same selector path (not by calls).
 	TrackFields bool
-	MaxStates   int
+	// AssumeRaw stipulates the outcome of leaf conditions by their exact source text
+	// (types.ExprString), also for conditions that are not trackable (index expressions, calls).
+	// It is only sound for conditions whose operands are not modified between the tests the
+	// rule relates; each use states why.
+	AssumeRaw map[string]bool
+	MaxStates int
 }
 
 type state struct {
@@ -281,6 +286,11 @@ func (g *Graph) Path(q Search) []*Node {
 		}
 		val := decodeVal(it.st.val)
 		// apply node effect on valuation / feasibility
+		if (n.Kind == KTrue || n.Kind == KFalse) && n.Of.Kind == KCond && q.AssumeRaw != nil {
+			if want, ok := q.AssumeRaw[types.ExprString(n.Of.Expr)]; ok && want != (n.Kind == KTrue) {
+				continue
+			}
+		}
 		if n.Kind == KTrue || n.Kind == KFalse {
 			if key, neg, ok := g.CondKeyOf(n.Of, q.TrackFields); ok {
 				want := (n.Kind == KTrue) != neg
